@@ -233,6 +233,8 @@ extern "C" {
                         switch (result)
                         {
                             case sqf::runtime::runtime::result::ok:
+                            // a run that was cut short (time limit, exit request) did not execute the code to completion
+                            return ref.runtime->is_exit_requested() ? result_failed : result_ok;
                             case sqf::runtime::runtime::result::empty:
                             return result_ok;
 
@@ -261,6 +263,8 @@ extern "C" {
                         switch (result)
                         {
                             case sqf::runtime::runtime::result::ok:
+                            // a run that was cut short (time limit, exit request) did not execute the code to completion
+                            return ref.runtime->is_exit_requested() ? result_failed : result_ok;
                             case sqf::runtime::runtime::result::empty:
                             return result_ok;
 
@@ -291,6 +295,8 @@ extern "C" {
                         switch (result)
                         {
                             case sqf::runtime::runtime::result::ok:
+                            // a run that was cut short (time limit, exit request) did not execute the code to completion
+                            return ref.runtime->is_exit_requested() ? result_failed : result_ok;
                             case sqf::runtime::runtime::result::empty:
                             return result_ok;
 
